@@ -113,6 +113,8 @@ def realize(a, ids, style="constructor"):
     def g(n):
         return reg.get(n) if n else None
     schema = Schema(g(a["query"]), g(a["mutation"]), g(a["subscription"]), directives=dirs, types=list(reg.values()))
+    if a.get("sdres"):
+        schema.default_resolver = ids.get(a["sdres"], "resolver")
     if style == "registered":
         for t in a["types"]:
             if t["k"] != "object":
@@ -157,6 +159,14 @@ def project(s):
         styles.add(st)
         return w
 
+    def index(owner, what, mapping, members):
+        """a name index an element exposes (field_map, argument_map) must list exactly its current members"""
+        try:
+            if list(mapping.keys()) != [m.name for m in members] or any(mapping[m.name] is not m for m in members):
+                ident.append("%s.%s is stale" % (owner, what))
+        except Exception as e:
+            ident.append("%s.%s raises %s" % (owner, what, type(e).__name__))
+
     def args(owner, lst):
         out = []
         for x in lst:
@@ -171,8 +181,10 @@ def project(s):
             fl = []
             for f in t.fields:
                 chk("%s.%s" % (n, f.name), f.type)
+                index("%s.%s" % (n, f.name), "argument_map", f.argument_map, f.arguments)
                 fl.append({"w": nm(f.name), "type": tref(f.type), "args": args("%s.%s" % (n, f.name), f.arguments), "py": f.python_name,
                            "res": rid(f.resolver), "sres": rid(getattr(f, "subscription_resolver", None)), "dep": f.deprecation_reason or "", "desc": f.description or ""})
+            index(n, "field_map", t.field_map, t.fields)
             d = {"k": "object" if isinstance(t, ObjectType) else "interface", "name": n, "fields": fl, "desc": t.description or ""}
             if isinstance(t, ObjectType):
                 d["ifaces"] = [i.name for i in t.interfaces]
@@ -188,6 +200,7 @@ def project(s):
         elif isinstance(t, EnumType):
             d = {"k": "enum", "name": n, "values": [{"name": v.name, "dep": v.deprecation_reason or ""} for v in t.values], "desc": t.description or ""}
         elif isinstance(t, InputObjectType):
+            index(n, "field_map", t.field_map, t.fields)
             d = {"k": "input", "name": n, "fields": args(n, t.fields), "desc": t.description or ""}
         else:
             d = {"k": "scalar", "name": n}
@@ -196,8 +209,11 @@ def project(s):
         r = getattr(s, root)
         if r is not None and s.types.get(r.name) is not r:
             ident.append("%s root -> %s" % (root, r.name))
+    for d in s.directives.values():
+        if d.name not in ("skip", "include", "deprecated"):
+            index("@" + d.name, "argument_map", d.argument_map, d.arguments)
     val = {"query": s.query_type.name if s.query_type else "", "mutation": s.mutation_type.name if s.mutation_type else "",
-           "subscription": s.subscription_type.name if s.subscription_type else "",
+           "subscription": s.subscription_type.name if s.subscription_type else "", "sdres": rid(getattr(s, "default_resolver", None)),
            "types": sorted(types, key=lambda d: d["name"]),
            "directives": sorted(({"name": d.name, "locs": sorted(d.locations), "args": args("@" + d.name, d.arguments)}
                                  for d in s.directives.values() if d.name not in ("skip", "include", "deprecated")), key=lambda d: d["name"])}
@@ -236,7 +252,8 @@ def normalize(a):
         elif k == "input":
             d.update(fields=args(t["fields"]), desc=t["desc"])
         types.append(d)
-    return {"query": a["query"], "mutation": a["mutation"], "subscription": a["subscription"], "types": sorted(types, key=lambda d: d["name"]),
+    return {"query": a["query"], "mutation": a["mutation"], "subscription": a["subscription"], "sdres": a.get("sdres", ""),
+            "types": sorted(types, key=lambda d: d["name"]),
             "directives": sorted(({"name": d["name"], "locs": sorted(d["locs"]), "args": args(d["args"])} for d in a["directives"]), key=lambda d: d["name"])}
 
 
